@@ -75,6 +75,15 @@ func (c *Ctx) add(rule, key string, pos token.Pos, st Status, detail string, wit
 	return o
 }
 
+// AddImported copies an obligation produced by another property's rule set
+// (run on a private context) into c, prefixing its rule with that property.
+func (c *Ctx) AddImported(from string, o *Obligation) {
+	n := *o
+	n.Rule = from + ":" + o.Rule
+	c.keys[n.FullKey()]++
+	c.Obs = append(c.Obs, &n)
+}
+
 // Check records an obligation that passes iff ok.
 func (c *Ctx) Check(rule, key string, pos token.Pos, ok bool, detail string, witness ...string) bool {
 	st := Pass
